@@ -53,16 +53,22 @@ func (m *verifCsModel) insert(n enc.Name, wire []byte, staleAt time.Time) {
 
 // a well-formed Data packet: /c1/../ck with one content byte
 func verifC07Data(n enc.Name, payload byte) []byte {
+	return verifC07DataN(n, []byte{payload})
+}
+
+// ... with a content of any (short) length, so that a refresh can carry a shorter or longer packet
+func verifC07DataN(n enc.Name, content []byte) []byte {
 	nl := 0
 	for _, c := range n {
 		nl += 2 + len(c.Val)
 	}
-	w := []byte{0x06, byte(2 + nl + 3), 0x07, byte(nl)}
+	w := []byte{0x06, byte(2 + nl + 2 + len(content)), 0x07, byte(nl)}
 	for _, c := range n {
 		w = append(w, 0x08, byte(len(c.Val)))
 		w = append(w, c.Val...)
 	}
-	return append(w, 0x15, 0x01, payload)
+	w = append(w, 0x15, byte(len(content)))
+	return append(w, content...)
 }
 
 func VerifC07_CsHistory() {
@@ -153,7 +159,9 @@ func VerifC07_Scripted() {
 	nins := verifParam("inserts", 3)
 	for k := 0; k < nins; k++ {
 		n, _ := enc.NameFromStr(universe[verifChoice("name", len(universe))])
-		wire := verifC07Data(n, byte(k+1))
+		// contents of different lengths: a re-insertion refreshes with a shorter or a longer packet
+		content := [][]byte{{1, 1, 1}, {2}, {3, 3}, {4}, {5, 5, 5, 5}}[k%5]
+		wire := verifC07DataN(n, content)
 		fresh := time.Second
 		d := &spec.Data{NameV: n, MetaInfo: &spec.MetaInfo{FreshnessPeriod: &fresh}}
 		used = append(used, n)
